@@ -1,6 +1,6 @@
 (* C07/Run.v — S-expression front end of the model, extracted to OCaml.
    request:
-     (run <autograd 0|1> <form> <store> <script>)
+     (run <autograd 0|1> <form> <store> <script> <writes>)     writes = (((name val) ...) ...): the globals the function assigned during call k
        form   = (gradvar p) | (gradmulti (w b ...)) | (nablasym p) | (nablapoint <val>) | (jacvar p) | (jacmulti (w b ...))
        store  = ((vars (name val) ...) (heap cell ...))
        val    = (i z) | (f <num>) | (a loc) | (t loc req) | (y name) | (fn id)
@@ -115,7 +115,15 @@ Fixpoint script_nth (k : nat) (l : list fres) : fres :=
   | o :: _, O => o
   | _ :: r, S j => script_nth j r
   end.
-Definition script_oracle (l : list fres) : oracle := fun k _ _ => script_nth k l.
+Definition write_of_sx (x : sx) : option (name * val) :=
+  match x with
+  | SL [SZ n; v] => option_map (fun w => (n, w)) (val_of_sx v)
+  | _ => None
+  end.
+Definition writes_of_sx (x : sx) : option (list (name * val)) :=
+  match x with SL l => opt_all write_of_sx l | _ => None end.
+Definition script_oracle (l : list fres) (ws : list (list (name * val))) : oracle :=
+  fun k _ _ => (script_nth k l, nth k ws []).
 
 Definition form_of_sx (x : sx) : option form :=
   match x with
@@ -140,17 +148,17 @@ Definition sx_of_err (e : err) : sx :=
 
 Definition dispatch (x : sx) : sx :=
   match x with
-  | SL [SS t; SZ ag; fm; s0; SL scr] =>
+  | SL [SS t; SZ ag; fm; s0; SL scr; SL wrs] =>
       if is_tag "run" t then
-        match form_of_sx fm, store_of_sx s0, opt_all outcome_of_sx scr with
-        | Some f, Some s, Some sc =>
-            let '(r, s') := run_form gen_flags (zbool ag) (script_oracle sc) f (init_st s) in
+        match form_of_sx fm, store_of_sx s0, opt_all outcome_of_sx scr, opt_all writes_of_sx wrs with
+        | Some f, Some s, Some sc, Some ws =>
+            let '(r, s') := run_form gen_flags (zbool ag) (script_oracle sc ws) f (init_st s) in
             SL [match r with Ok _ => sx_w "ok" | Err e => sx_of_err e end;
                 sx_nat (List.length (log s'));
                 sx_of_store (sto s');
                 SL (map (fun e => sx_of_store (snd e)) (log s'));
                 SL (map (fun e => SL (map sx_of_val (fst e))) (log s'))]
-        | _, _, _ => sx_err "decode"
+        | _, _, _, _ => sx_err "decode"
         end
       else sx_err "op"
   | _ => sx_err "shape"
